@@ -10,7 +10,7 @@
    evaluated on the implementation in exact rational arithmetic (lib/p_C10.py). *)
 From SV Require Import Ops LinAlg BK.
 From mathcomp Require Import all_ssreflect all_algebra.
-From SV Require Import OpsF BKPf.
+From SV Require Import OpsF BKPf BKElim.
 Set Implicit Arguments. Unset Strict Implicit. Unset Printing Implicit Defensive.
 Import GRing.Theory Num.Theory.
 Local Open Scope ring_scope.
@@ -45,6 +45,19 @@ Theorem C10_decision_is_bk_choice : forall (o : Ops) (alpha : T o) (n : nat) (P 
   fst (fst (permutate_mat o alpha n P pm k)) = negb (Nat.eqb (bk_choice o alpha (abs o (pget o P k k)) lambda sigma (abs o (pget o P r r))) 2).
 Proof. move=> o alpha n P pm k; exact: permutate_mat_decision. Qed.
 Print Assumptions C10_decision_is_bk_choice.
+
+(* gaussian_elimination_1x1 (model tied bit for bit) at step k with a non-zero pivot a_kk: it reports success, keeps the packed shape,
+   stores the Schur complement a_ij - (a_jk / a_kk) a_ik in the trailing triangle, the multipliers a_ik / a_kk in column k and
+   touches NOTHING else - for every scalar instance (the statement fixes the evaluation order of the binary64 one) *)
+Theorem C10_elimination_is_schur_complement : forall (o : Ops) (n : nat) (P : packed o) (k : nat),
+  wf (o:=o) n P -> (k < n)%N -> Ops.eqb o (pget o P k k) (zero o) = false ->
+  let akk := pget o P k k in
+  let '(P', inf) := elim_1x1 o n P k in
+  [/\ inf = 0%N, wf n P' & forall i j, (j <= i < n)%N ->
+     pget o P' i j = if (k < j)%N then Ops.sub o (pget o P i j) (Ops.mul o (Ops.div o (pget o P j k) akk) (pget o P i k))
+                     else if (j == k) && (k < i)%N then Ops.div o (pget o P i k) akk else pget o P i j].
+Proof. move=> o n P k; exact: elim_1x1_spec. Qed.
+Print Assumptions C10_elimination_is_schur_complement.
 
 (* the 2x2 diagonal block solve used by solve_inplace and gaussian_elimination_2x2 *)
 Theorem C10_solve_2x2 : forall (F : rcfType) (e11 e21 e22 b1 b2 : F), e11 * e22 - e21 * e21 != 0 ->
